@@ -105,6 +105,9 @@ def eval_cover(ctx):
             res = extx.track_eval(ctx, opcode, rid, ops)
             if res[0] == "panic":
                 return "%s: %s" % (name, res[1])
+        for t_, pb_ in extx.histories(ctx):
+            if pb_ and ("panics" in pb_ or "not analysable" in pb_):
+                return "%s: %s" % (t_, pb_)
         return None
 
     def dis_ext():
@@ -484,6 +487,7 @@ def discharge(ctx, chk, g, with_main=False):
         except Anchor as ex:
             badc.append((name, "not analysable: %s" % ex))
             break
+    badc += [(t_, pb_) for t_, pb_ in extx.histories(ctx) if pb_ and ("panics" in pb_ or "not analysable" in pb_)][:2]
     chk.check(R3, not badc, "extinst_track", "ExtInstSetTracker::track can panic: %s" % badc[:2], raw.where("track", "ExtInstSetTracker"))
 
     # disas_ext_inst: no abstract case (0, 1, 2, many operands; any operand kinds; set/number known or not) panics
